@@ -22,7 +22,7 @@ def run(ctx):
     ctx.trusted += [
         "translator tools/go2lean, kind bytes: Message.WriteTo, decodeMessage, SendFramedResponse, SendResponse and "
         "readLen are translated into Lean definitions (List UInt8 / BitVec, explicit panic outcome) that Tie.WireFn "
-        "proves equal to the model; its prelude Model/ByteOps renders encoding/binary big-endian as Model.Wire.beBytes/"
+        "proves equal to the model (writer = bytes.Buffer; readLen for a scratch slice of length 4); its prelude Model/ByteOps renders encoding/binary big-endian as Model.Wire.beBytes/"
         "beVal, bytes.Buffer as the writer that appends everything and io.ReadFull over a byte stream",
         "translator tools/go2lean (kinds consts/stmts/body): the statements of readMPUB, SendMessage, "
         "writeMessageToBackend, bufferPoolPut, doMPUB's text loop, doPUB's body read and Topic.messagePump's copy are "
@@ -44,7 +44,8 @@ def run(ctx):
         "frames are within the client's int32 length (size_le_limits: max-msg-size + 30 < 2^31)",
         "connection model: IDENTIFY (feature upgrades, output buffer change) is accepted only before SUB and "
         "message frames are sent only to subscribed clients — as protocolV2.IDENTIFY / messagePump enforce",
-        "'every output byte goes to the negotiated transport' holds for EVERY schedule on this tree (Props.C07Stack.this_tree_full over "
+        "'every output byte goes to the negotiated transport' holds for EVERY schedule on this tree (Props.C07Stack.this_tree_full = OnNegotiated and nothing leaked, this_tree_decodes = the "
+        "client decodes exactly the frames sent; both over "
         "Tie.WireStack.treeFixed, which the facts decide to be true: F30 = /repo d6aa4e3 is committed and Tie.WireStack accepts only its "
         "shape). About the tree BEFORE F30: output_on_negotiated_transport_false / second_identify_leaks_cleartext (witness; finding "
         "second-identify-cleartext, listed fixed, replayed on every run) and output_on_negotiated_transport_partial (hypothesis "
